@@ -34,7 +34,7 @@ import traceback
 from typing import Dict, List, Optional, Tuple
 
 MODULE = "checks.bounded_C17"
-ACTIONS = ["kp_root", "kp_child", "hash", "shash", "str", "open", "json", "pickle", "deepcopy"]
+ACTIONS = ["kp_root", "kp_conc", "kp_child", "hash", "shash", "str", "open", "json", "pickle", "deepcopy"]
 K = 3
 
 SPECIAL_GRAMMAR = {
@@ -196,6 +196,12 @@ def run_tree_history(tree_name: str, actions: Tuple[str, ...]) -> List[Tuple[str
                 if v != base["kp_root"]:
                     out.append((f"k_paths(root):value-changed:{prev}", f"history {hist} on {tree_name}"))
                 cached.append("k_paths(root)")
+            elif a == "kp_conc":
+                # the second k-path cache (concrete paths only, as the solver's cost function computes them)
+                v = _kp(t.k_paths(graph, K, include_potential_paths=False))
+                if v != base["kp_root_concrete"]:
+                    out.append((f"k_paths(root,concrete):value-changed:{prev}", f"history {hist} on {tree_name}"))
+                cached.append("k_paths(root,concrete)")
             elif a == "kp_child":
                 v = _kp(child.k_paths(graph, K))
                 if v != base["kp_child"]:
@@ -537,7 +543,7 @@ def run(rep, tier, seed):
             for actions, v in r["res"]:
                 counts["tree_histories"] += 1
                 ser = [i for i, a in enumerate(actions) if a in ("json", "pickle", "deepcopy")]
-                if ser and any(a in ("kp_root", "kp_child", "hash", "shash", "open") for a in actions[:ser[-1]]):
+                if ser and any(a in ("kp_root", "kp_conc", "kp_child", "hash", "shash", "open") for a in actions[:ser[-1]]):
                     counts["histories_with_serialisation_after_cache"] += 1
                 rep.case(key=(r["name"], "+".join(actions)), nontrivial=True,
                          sample=dict(tree=r["name"], history=actions) if counts["tree_histories"] % 3001 == 1 else None)
